@@ -15,7 +15,7 @@ from ..build import AnalysisBroken
 from ..lib_c09 import PInterp, Agg, as_obj, chain, mk_tokens, mk_hideset, strip_ids, PARAM, OTHER, cls_of
 from ..lib_c09x import (Desc, show, explore_expand, explore_subst, SubstPath, explore_subst_shared, explore_skip_arms, cut_new_token_flags,
                         creator_summaries, describe_flag, CREATORS, FRESH)
-from ..lib_c19 import run_table, describe_pair, format_items
+from ..lib_c19 import run_table, describe_pair, format_items, printer_helpers, STATUS
 from .. import lib_c19rb as RB
 
 PU = 'preprocess.c'
@@ -142,16 +142,10 @@ def r_printer(P, rep):
     outs = ('fprintf', 'fputs', 'fputc', 'putc', 'fwrite')
     # helpers the printer consults (e.g. a predicate over two neighbouring tokens) stay opaque: their answer forks the path
     # ... namely the helpers that look at spellings (`->loc`); a helper that only redistributes the flag logic is followed
-    reach, todo = set(), [fn]
-    while todo:
-        f = todo.pop()
-        for c in u.fn(f).walk():
-            g = c.callee() if c.kind == 'CallExpr' else None
-            if g and g not in outs and g not in reach:
-                reach.add(g)
-                if g in u.functions:
-                    todo.append(g)
-    helpers = sorted(set(g for g in reach if g not in u.functions or any(m.kind == 'MemberExpr' and m.name == 'loc' for m in u.fn(g).walk())) | {'open_file'})
+    helpers = printer_helpers(u, fn, outs)
+    # ... among them the stream-status calls with which the printer ends (close_file: fflush/ferror/fclose): they write no text;
+    # all their answers are explored (a reported failure ends in error()), and they are no question about tokens
+    stream = ('open_file',) + STATUS
     it = PInterp(P, u, {'opaque': helpers, 'cut': {k: None for k in outs}, 'loop_limit': 3, 'track_stores': True})
     # predicates over a PAIR of tokens (two or more Token * parameters, and they read spellings): what the printer asks before it glues
     pairh = sorted(h for h in helpers if h in u.functions and sum(1 for q in u.params(h) if (q.type or '').replace(' ', '') == 'Token*') >= 2)
@@ -240,9 +234,9 @@ def r_printer(P, rep):
             if i > 0 and isinstance(ab, int) and ab == 0 and isinstance(hs, int) and hs == 0 and sep:
                 # the printer separates tokens for a reason other than their own flags: it counts as protection of expansion
                 # boundaries when the reason is a question asked about this token AND its predecessor (their spellings)
-                asked = [c for c in ctx.events if c[0] == 'call' and c[1] in helpers and c[1] != 'open_file'
+                asked = [c for c in ctx.events if c[0] == 'call' and c[1] in helpers and c[1] not in stream
                          and any(as_obj(it, a) is T for a in c[2]) and any(as_obj(it, a) is toks[i - 1] for a in c[2])]
-                if asked or not any(c[0] == 'call' and c[1] in helpers and c[1] != 'open_file' for c in ctx.events):
+                if asked or not any(c[0] == 'call' and c[1] in helpers and c[1] not in stream for c in ctx.events):
                     protect = True
             i += 1
         if bad:
@@ -291,7 +285,8 @@ def r_separation(P, rep):
         raise AnalysisBroken('anchor %s vanished from %s' % (fn, MU))
     rep.rule('R19.4', 'for every pair of token spellings A, B (every punctuator of the tokenizer; one word, keyword, number, character/string literal per class of first and last character) that tokenize() does not read back as the tokens A, B when they are written without white space, print_tokens writes white space between them on every path, whatever the fields other than kind and spelling hold', floor=100)
     rep.assumptions += ['<ctype.h> classification is that of the "C" locale (glibc table layout: (*__ctype_b_loc())[c] & _ISxxx)',
-                        'R19.4 looks at pairs of neighbouring tokens (three one-character tokens that only fuse together are not covered)']
+                        'R19.4 looks at pairs of neighbouring tokens (three one-character tokens that only fuse together are not covered)',
+                        'R19.4 is decided for an output stream that takes everything written to it: fflush/ferror/fclose report success (what the printer does after a write error is not analysed)']
     where = '%s:%d' % (MU, u.fn(fn).line)
     res, info = run_table(P)
     names = {}
